@@ -947,21 +947,27 @@ package leveldb
 //@ ghost var gPvHas bool
 //@ ghost var gPvIsVal bool
 //@ ghost var gPvU key
+//@ ghost var gPvPrevHas bool
+//@ ghost var gPvPrevIsVal bool
+//@ ghost var gPvPrevU key
 //@ func (*dbIter).prev
 //@   props C02
 //@   abstract keys
 //@   safety off
 //@   at entry
 //@     ghost gPvHas = false
+//@   at before stmt i.sampleSeek()
+//@     ghost gPvPrevHas = gPvHas
+//@     ghost gPvPrevIsVal = gPvIsVal
+//@     ghost gPvPrevU = gPvU
+//@     ghost gPvHas = (gPvHas || seq <= i.seq)
+//@     ghost gPvIsVal = (seq <= i.seq ? kt != keyTypeDel : gPvIsVal)
+//@     ghost gPvU = (seq <= i.seq ? krank(ukey) : gPvU)
 //@   loop 1
 //@     invariant [C02:candidate-is-the-last-visible-entry] (!del ==> (gPvHas && gPvIsVal && gPvU == krank(i.key))) && (del ==> (!gPvHas || !gPvIsVal))
 //@     invariant [C02:direction-kept] i.dir == dirBackward
-//@   at before stmt del = (kt == keyTypeDel)
-//@     ghost gPvHas = true
-//@     ghost gPvIsVal = (kt != keyTypeDel)
-//@     ghost gPvU = krank(ukey)
 //@   at before stmt return true#1
-//@     assert [C02:newest-visible-version-complete] gPvHas && gPvIsVal && gPvU == krank(i.key) && krank(ukey) != krank(i.key) && seq <= i.seq
+//@     assert [C02:newest-visible-version-complete] gPvPrevHas && gPvPrevIsVal && gPvPrevU == krank(i.key) && krank(ukey) != krank(i.key) && seq <= i.seq
 //@   at before stmt return true#2
 //@     assert [C02:newest-visible-version-at-the-start] gPvHas && gPvIsVal && gPvU == krank(i.key)
 //@   ensures [C02:stepping-off-the-start-is-remembered] !result ==> (i.dir == dirSOI || i.err != nil)
